@@ -203,10 +203,10 @@ def segments (c : Consts α) (sinThetView alt eshow : α) : List (Seg α) × Nat
 def e0 (s : α) : α := if leb 0.4 s then 44.0 - 17.0 * sq (s - 1.46) else 26.0
 
 /-- `cherenkov_threshold_angle`: threshold energy (MeV) -/
-def eCthres (airN : α) : α := 0.511 / sqrt (1.0 - 1 / (airN * airN))
+def eCthres (airN : α) : α := 0.511 / sqrt (1.0 - 1.0 / (airN * airN))
 
 /-- `cherenkov_threshold_angle`: Cherenkov angle -/
-def thetaC (airN : α) : α := acos (1 / airN)
+def thetaC (airN : α) : α := acos (1.0 / airN)
 
 /-- `CphotAng.tracklen` -/
 def tracklen (e0 ecth s : α) : α :=
